@@ -3,6 +3,7 @@
 // captures the bytes delivered to the XalanOutputStream, and parses them back with Xerces (SAX2).
 //
 // Request (one per line):   doc <U|L> <encoding> <1.0|1.1> <event>...
+//                    or:    docx <U|L> <encoding> <1.0|1.1> decl=<0|1>,sa=<hex>,sys=<hex>,pub=<hex>[,ind=<n>] <event>...
 //   events (single words; strings are lower-case hex of UTF-16 code units, "-" = empty):
 //     s:<name>[:<attrname>=<attrvalue>]*   startElement
 //     e:<name>                             endElement
@@ -36,6 +37,7 @@
 #include <xalanc/XalanDOM/XalanDOMString.hpp>
 
 #include <cstdio>
+#include <cstdlib>
 #include <iostream>
 #include <sstream>
 #include <string>
@@ -212,28 +214,55 @@ static std::string run(const std::vector<std::string>& w)
     MemoryManager& mm = XalanMemMgrs::getDefaultXercesMemMgr();
     if (w.size() < 4) return "bad";
     const std::string kind = w[1], enc = w[2], ver = w[3];
+    // docx: w[4] = "decl=0|1,sa=<hex>,sys=<hex>,pub=<hex>" (XML declaration, standalone, doctype-system, doctype-public)
+    const bool extended = w[0] == "docx";
+    bool xmlDecl = true;
+    bool doIndent = false;
+    int indentAmount = 0;
+    UStr uSa, uSys, uPub;
+    if (extended)
+    {
+        if (w.size() < 5) return "bad";
+        std::vector<std::string> kvs = split(w[4], ',');
+        for (size_t q = 0; q < kvs.size(); ++q)
+        {
+            std::vector<std::string> kv = split(kvs[q], '=');
+            if (kv.size() != 2) return "bad";
+            if (kv[0] == "decl") xmlDecl = kv[1] == "1";
+            else if (kv[0] == "sa") { if (!unhex(kv[1], uSa)) return "bad"; }
+            else if (kv[0] == "sys") { if (!unhex(kv[1], uSys)) return "bad"; }
+            else if (kv[0] == "pub") { if (!unhex(kv[1], uPub)) return "bad"; }
+            else if (kv[0] == "ind") { doIndent = true; indentAmount = std::atoi(kv[1].c_str()); }
+            else return "bad";
+        }
+    }
+    const size_t firstEvent = extended ? 5 : 4;
     CaptureStream stream(mm);
     XalanOutputStreamPrintWriter writer(stream);
     FormatterListener* fl = 0;
     const XalanDOMString empty(mm);
     const XalanDOMString version = mk(ver.c_str(), mm);
     const XalanDOMString encoding = mk(enc.c_str(), mm);
+    XalanDOMString standalone(mm), dtSystem(mm), dtPublic(mm);
+    for (size_t q = 0; q < uSa.size(); ++q) standalone.push_back(uSa[q]);
+    for (size_t q = 0; q < uSys.size(); ++q) dtSystem.push_back(uSys[q]);
+    for (size_t q = 0; q < uPub.size(); ++q) dtPublic.push_back(uPub[q]);
     std::string status = "ok";
     bool legacy = false;
     try
     {
         if (kind == "U")
         {
-            fl = XalanXMLSerializerFactory::create(mm, writer, version, false, 0, encoding, empty, empty, empty, true, empty);
+            fl = XalanXMLSerializerFactory::create(mm, writer, version, doIndent, indentAmount, encoding, empty, dtSystem, dtPublic, xmlDecl, standalone);
         }
         else if (kind == "L")
         {
             legacy = true;
-            fl = FormatterToXML::create(mm, writer, version, false, 0, encoding, empty, empty, empty, true, empty);
+            fl = FormatterToXML::create(mm, writer, version, doIndent, indentAmount, encoding, empty, dtSystem, dtPublic, xmlDecl, standalone);
         }
         else return "bad";
         fl->startDocument();
-        for (size_t k = 4; k < w.size(); ++k)
+        for (size_t k = firstEvent; k < w.size(); ++k)
         {
             const std::string& ev = w[k];
             if (ev.size() < 2 || ev[1] != ':') { status = "bad"; break; }
@@ -332,7 +361,7 @@ int main()
             std::vector<std::string> w;
             std::string t;
             while (in >> t) w.push_back(t);
-            if (w.empty() || w[0] != "doc") { std::cout << "bad\n"; continue; }
+            if (w.empty() || (w[0] != "doc" && w[0] != "docx")) { std::cout << "bad\n"; continue; }
             std::cout << run(w) << "\n";
         }
         std::cout.flush();
